@@ -16,7 +16,7 @@ pub fn def() -> CheckDef {
         meta: CheckMeta {
             id: "C09",
             level: "exploration",
-            rule: "scenarios of 2-3 writer threads, each doing 1-2 read-modify-write increments of a counter key (plus a bulk value; in half of the scenarios the file is a fresh 4-page file, so the first commits have to grow it: resize takes the map lock exclusively; the other half is pre-sized and never resizes) with 1-2 reader threads; every thread holds at most one transaction. In a quarter of the scenarios (all with file growth) every lock acquisition inside jammdb is a scheduling point of its own, so a thread can be preempted between two short critical sections. Schedules as in C04: all schedules with <= p preemptions by depth-first re-execution (p = 2 quick, 3 thorough, capped), then seeded random / PCT schedules. Oracles: (1) a flag set after tx(true) returns and cleared before commit is never found set (mutual exclusion); (2) the counter read inside each committed transaction is unique and the final counter equals the number of successful commits (no lost update); a reader never sees a counter below the number of commits that had returned before it began; (3) a reader never reports itself blocked on a lock while every other thread is parked outside jammdb (a reader blocked by an idle, uncommitted open writer); a committing writer waiting for open readers before it grows the file, and writers waiting for each other, are legitimate; (4) no state in which every live thread is blocked, every execution ends within the step bound, and no thread stays blocked when the controller lets everything run free. Non-trivial = schedule with >= 1 preemption in which a writer had to wait for the writer lock or a thread had to wait for the map lock during a resize. Distinct = hash of the choice sequence (per scenario).",
+            rule: "scenarios of 2-3 writer threads, each doing 1-2 read-modify-write increments of a counter key (plus a bulk value; in half of the scenarios the file is a fresh 4-page file, so the first commits have to grow it: resize takes the map lock exclusively; the other half is pre-sized and never resizes) with 1-2 reader threads; in half of the scenarios writer 0 first abandons (rolls back) a write transaction; every thread holds at most one transaction. In a quarter of the scenarios (all with file growth) every lock acquisition inside jammdb is a scheduling point of its own, so a thread can be preempted between two short critical sections. Schedules as in C04: all schedules with <= p preemptions by depth-first re-execution (p = 2 quick, 3 thorough, capped), then seeded random / PCT schedules. Oracles: (1) a flag set after tx(true) returns and cleared before commit is never found set (mutual exclusion); (2) the counter read inside each committed transaction is unique and the final counter equals the number of successful commits (no lost update); a reader never sees a counter below the number of commits that had returned before it began; (3) a reader never reports itself blocked on a lock while every other thread is parked outside jammdb (a reader blocked by an idle, uncommitted open writer); a committing writer waiting for open readers before it grows the file, and writers waiting for each other, are legitimate; (4) after all threads have finished DB::check() passes; (5) no state in which every live thread is blocked, every execution ends within the step bound, and no thread stays blocked when the controller lets everything run free. Non-trivial = schedule with >= 1 preemption in which a writer had to wait for the writer lock or a thread had to wait for the map lock during a resize. Distinct = hash of the choice sequence (per scenario).",
             assumptions: &[
                 "liveness is checked as: no reachable all-blocked state, termination within a step bound under every explored schedule; fairness is not modelled",
                 "the controller explores a superset of the schedules std's RwLock (writer-preferring) allows, which is sound for these safety oracles",
@@ -46,10 +46,27 @@ fn build(sc: &Scenario, db: &DB, sh: Arc<Shared>) -> Vec<ThreadFn> {
         let sh = sh.clone();
         let incs = sc.commits;
         let bulk = 200 + 300 * (sc.pattern as usize / 2 % 3);
+        // scenarios with holds % 8 >= 5 (pre-sized 13, growth 5): writer 0 first abandons a transaction
+        let rollback_first = sc.holds % 8 >= 5;
         ts.push(Box::new(move |ctx: ThreadCtx| {
             let r = catch(|| -> Result<(), String> {
                 for i in 0..incs {
                     ctx.yield_now("h:writer:start");
+                    if rollback_first && i == 0 && w == 0 {
+                        // a write transaction that is abandoned: edits, then dropped without commit
+                        let tx = db.tx(true).map_err(|e| format!("writer {} tx(true): {}", w, e))?;
+                        if sh.in_write.swap(true, Ordering::SeqCst) {
+                            return Err(format!("writer {} obtained a write transaction while another one is open", w));
+                        }
+                        {
+                            let b = tx.get_or_create_bucket("c").map_err(|e| e.to_string())?;
+                            b.put(format!("abandoned-{}", w), vec![b'r'; bulk]).map_err(|e| e.to_string())?;
+                        }
+                        ctx.yield_now("h:writer:before_rollback");
+                        sh.in_write.store(false, Ordering::SeqCst);
+                        drop(tx);
+                        ctx.yield_now("h:writer:rolled_back");
+                    }
                     let tx = db.tx(true).map_err(|e| format!("writer {} tx(true): {}", w, e))?;
                     if sh.in_write.swap(true, Ordering::SeqCst) {
                         return Err(format!("writer {} obtained a write transaction while another one is open", w));
@@ -94,7 +111,7 @@ fn build(sc: &Scenario, db: &DB, sh: Arc<Shared>) -> Vec<ThreadFn> {
     for r in 0..sc.readers {
         let db = db.clone();
         let sh = sh.clone();
-        let holds = sc.holds % 8;
+        let holds = sc.holds % 4;
         ts.push(Box::new(move |ctx: ThreadCtx| {
             let res = catch(|| -> Result<(), String> {
                 ctx.yield_now("h:reader:start");
@@ -195,6 +212,12 @@ pub fn run_once(sc: &Scenario, template: &Path, work: &Path, plan: &[usize], str
         if commits != (writers * sc.commits) as u64 {
             failures.push(format!("only {} of {} write transactions committed", commits, writers * sc.commits));
         }
+        // the file the writers leave behind accounts for every page
+        match catch(|| db.check()) {
+            Ok(Ok(())) => {}
+            Ok(Err(e)) => failures.push(format!("after all threads finished DB::check() reports: {}", e)),
+            Err(p) => failures.push(format!("DB::check() panicked after all threads finished: {} {}", p.msg, p.frame)),
+        }
     }
     if exec.leaked == 0 {
         drop(db);
@@ -209,7 +232,7 @@ fn shard(ctx: &ShardCtx, known: &Known) -> ShardOut {
     // pattern: bit 0 = third writer, /2%3 = bulk size
     // holds >= 8 marks a pre-sized (no growth) scenario
     let presized = ctx.shard % 2 == 1;
-    let sc = Scenario { readers: 1 + (ctx.shard / 4) % 2, commits: 1 + (ctx.shard / 8) % 2, pattern: ((ctx.shard / 2) % 6) as u8, holds: if presized { 9 } else { 1 }, grow: false, lock_yield: ctx.shard % 4 == 0 };
+    let sc = Scenario { readers: 1 + (ctx.shard / 4) % 2, commits: 1 + (ctx.shard / 8) % 2, pattern: ((ctx.shard / 2) % 6) as u8, holds: (if presized { 9 } else { 1 }) + if (ctx.shard / 2) % 2 == 1 { 4 } else { 0 }, grow: false, lock_yield: ctx.shard % 4 == 0 || ctx.shard % 8 == 3 };
     let template = ctx.db_path("c09.template.db");
     if let Err(f) = prepare_template(&template, presized) {
         out.inconclusive.push(f.line());
